@@ -35,3 +35,12 @@ ENTRIES = [
     N('except-exception', "    except ValueError as error:\n        _logger.warning(__(\n            _('Unable to parse URL ‘{url}’: {error}.'),\n            url=wpull.string.printable_str(url), error=error))",
       "    except Exception as error:\n        _logger.warning(__(\n            _('Unable to parse URL ‘{url}’: {error}.'),\n            url=wpull.string.printable_str(url), error=error))"),
 ]
+
+ENTRIES += [
+    B('regress-ipv6-zone', "        if '%' in hostname:\n            # Zone identifiers are not supported; newer versions of\n            # ipaddress accept them with arbitrary characters.\n            raise ValueError('Invalid IPv6 address: {}'\n                             .format(ascii(hostname)))\n\n", "", 'C11-D1'),
+    B('regress-userinfo-eager', "        normalize_username(info.username)\n        normalize_password(info.password)\n", "", 'C11-D1'),
+    B('userinfo-eager-only-name', "        normalize_username(info.username)\n        normalize_password(info.password)\n", "        normalize_username(info.username)\n", 'C11-D1'),
+    B('url-userinfo-document-encoding', "                parts.append(normalize_username(self.username))", "                parts.append(normalize_username(self.username, encoding=self.encoding))", 'C11-D1'),
+    B('urljoin-self-recursion', "            return urllib.parse.urljoin(\n                base_url,\n                '{0}:{1}'.format(scheme, url),", "            return urljoin(\n                base_url,\n                '{0}:{1}'.format(scheme, url),", 'C11-D2'),
+    N('ipv6-zone-check-on-literal', "        if '%' in hostname:", "        if '%' in hostname[1:-1]:"),
+]
